@@ -70,7 +70,7 @@ func (c Conf) Directives() string {
 
 // Trace is what the transaction told the middleware.
 type Trace struct {
-	Stage  string `json:"stage,omitempty"`  // call that first returned an interruption: P1 RRB P2 P3 WRB P4
+	Stage  string `json:"stage,omitempty"`  // call that first returned an interruption: P1 RRB P2 P3 WRB P4 (END: none did, yet the transaction ended interrupted)
 	Action string `json:"action,omitempty"` // of that interruption
 	Status int    `json:"status,omitempty"`
 	RuleID int    `json:"rule_id,omitempty"`
@@ -79,8 +79,12 @@ type Trace struct {
 	Calls  string `json:"calls,omitempty"` // sequence of traced calls
 }
 
-func (t *Trace) requestStage() bool  { return t.Stage == "P1" || t.Stage == "RRB" || t.Stage == "WRQ" || t.Stage == "P2" }
-func (t *Trace) responseStage() bool { return t.Stage == "P3" || t.Stage == "WRB" || t.Stage == "RRS" || t.Stage == "P4" }
+func (t *Trace) requestStage() bool {
+	return t.Stage == "P1" || t.Stage == "RRB" || t.Stage == "WRQ" || t.Stage == "P2"
+}
+func (t *Trace) responseStage() bool {
+	return t.Stage == "P3" || t.Stage == "WRB" || t.Stage == "RRS" || t.Stage == "P4"
+}
 
 func itrText(it *types.Interruption) string {
 	if it == nil {
@@ -192,7 +196,12 @@ func (t *tracedTx) ResponseBodyReader() (io.Reader, error) {
 }
 
 func (t *tracedTx) ProcessLogging() {
-	t.tr.Final = itrText(t.Transaction.Interruption())
+	it := t.Transaction.Interruption()
+	t.tr.Final = itrText(it)
+	if it != nil && t.tr.Stage == "" {
+		// interrupted, but no phase call reported it to the middleware
+		t.note("END", it, nil)
+	}
 	t.Transaction.ProcessLogging()
 }
 
